@@ -122,7 +122,7 @@ func c15Processor(c *Check, P string, outer, C *ssa.Function, kind string) {
 			}
 			continue
 		}
-		if cl.Common().StaticCallee() != nil {
+		if CalleeFn(cl.Common()) != nil {
 			continue
 		}
 		isH := false
@@ -368,7 +368,7 @@ func c15Bus(c *Check, P string, fn *ssa.Function, genField string, hooks []strin
 	// functions that make up the pipeline: fn + in-package helpers it calls
 	fns := []*ssa.Function{fn}
 	for _, cl := range CallsIn(fn) {
-		if cal := cl.Common().StaticCallee(); cal != nil && cal.Pkg == fn.Pkg && len(cal.Blocks) > 0 && cal.Signature.Recv() != nil {
+		if cal := CalleeFn(cl.Common()); cal != nil && cal.Pkg == fn.Pkg && len(cal.Blocks) > 0 && cal.Signature.Recv() != nil {
 			fns = append(fns, cal)
 		}
 	}
@@ -378,7 +378,7 @@ func c15Bus(c *Check, P string, fn *ssa.Function, genField string, hooks []strin
 		marshals = append(marshals, CallsTo(f, nMarshal)...)
 		names = append(names, CallsTo(f, nName)...)
 		for _, cl := range CallsIn(f) {
-			if !cl.Common().IsInvoke() && cl.Common().StaticCallee() == nil && AllOrigins(cl.Common().Value, exportedFieldLoad(genField)) {
+			if !cl.Common().IsInvoke() && CalleeFn(cl.Common()) == nil && AllOrigins(cl.Common().Value, exportedFieldLoad(genField)) {
 				gens = append(gens, cl)
 			}
 		}
@@ -424,7 +424,7 @@ func c15Bus(c *Check, P string, fn *ssa.Function, genField string, hooks []strin
 					}
 				}
 			}
-			if cal := cl.Common().StaticCallee(); cal != nil && cal.Pkg != f.Pkg {
+			if cal := CalleeFn(cl.Common()); cal != nil && cal.Pkg != f.Pkg {
 				continue // errors.Wrap etc. are not steps
 			}
 			okE, _ := NilEdges(f, func(v ssa.Value) bool { return AllOrigins(v, func(o ssa.Value) bool { return IsResultOf(o, cl, n-1) }) })
@@ -537,7 +537,7 @@ func isValHelper(v ssa.Value, fn *ssa.Function, val *ssa.Parameter) bool {
 		}
 		okAll := false
 		for _, cl := range CallsIn(fn) {
-			if cl.Common().StaticCallee() == h && idx < len(cl.Common().Args) {
+			if CalleeFn(cl.Common()) == h && idx < len(cl.Common().Args) {
 				okAll = AllOrigins(cl.Common().Args[idx], func(x ssa.Value) bool { return val != nil && x == ssa.Value(val) })
 			}
 		}
@@ -565,7 +565,7 @@ func AllOrigins2(v ssa.Value, pkg *ssa.Package, pred func(ssa.Value) bool) bool 
 		if call == nil {
 			return false
 		}
-		cal := call.Call.StaticCallee()
+		cal := CalleeFn(&call.Call)
 		if cal == nil || cal.Pkg != pkg || len(cal.Blocks) == 0 {
 			return false
 		}
@@ -635,7 +635,7 @@ func c15NameKey(c *Check, P string) {
 		for _, s := range CallsTo(mar, nMetaSet) {
 			if k, ok := ConstString(Arg(s, 0)); ok {
 				v, isCall := firstOrigin(Arg(s, 1)).(*ssa.Call)
-				if isCall && v.Call.StaticCallee() == nm {
+				if isCall && CalleeFn(&v.Call) == nm {
 					keysW[k] = true
 					c.Report(len(v.Call.Args) == 2 && FromParam(mar.Params[len(mar.Params)-1])(v.Call.Args[1]), P+".O6", "NAME-WRITTEN", mar, s.Pos(), named.Obj().Name()+".Marshal", "Marshal stores Name(v) of the marshaled value")
 				}
